@@ -13,6 +13,7 @@ import EinoV.Proofs.C05
 import EinoV.Proofs.C05Resume
 import EinoV.Model.C05Nested
 import EinoV.Proofs.C06Nested
+import EinoV.Proofs.C06Fault
 import EinoV.Proofs.C05NestedExamples
 import EinoV.Gen.FactsC06
 import EinoV.Expected.C06
@@ -27,6 +28,7 @@ theorem facts_match :
     FactsC06.loopTasksChecked = Expected.C06.loopTasksChecked ∧
     FactsC06.createTasksForwardsStaleCP = Expected.C06.createTasksForwardsStaleCP ∧
     FactsC06.storeOnlyTopLevelWithID = Expected.C06.storeOnlyTopLevelWithID ∧
+    FactsC06.checkpointWriteErrorReturned = Expected.C06.checkpointWriteErrorReturned ∧
     FactsC06.extractUsesErrorsAs = true := by decide
 
 /-- the run as the source has it: both parameters of the model are extracted facts -/
@@ -286,5 +288,91 @@ example (inp : Nat ⊕ Checkpoint Nat Nat Pay) (cp : Checkpoint Nat Nat Pay) (in
     (fun _ _ h => h) outer_subScheds false true inp cp info h
 
 end Nested
+
+/-! ## A checkpoint store that fails (family `fault`)
+
+  Model: EinoV/Model/C06Fault.lean (`Plan`: which `Get` / `Set` calls of the caller's store fail;
+  `callF`: one call with the id on a store state; `histF`: the caller repeats the call — resume after
+  an interrupt, retry after an error of the store).  Whether the error of `r.checkPointer.set`
+  reaches the handler's return is the source fact `checkpointWriteErrorReturned`. -/
+section Fault
+open EinoV.Interrupt.Fault
+
+/-- the run loop of a top-level run with an id satisfies what the fault lemmas need -/
+theorem runI_runOK (ops : ValOps V) (cfg : Cfg) (r : IRunner V S X) (sched : ISched V S X) :
+    RunOK (runI ops cfg r sched false true) :=
+  { intr := fun inp info => runI_interrupt_mem ops cfg r sched false true inp info,
+    store := fun inp => by
+      rw [runI_store_mem ops cfg r sched false true inp]
+      exact ⟨fun h => h.2.2, fun h => ⟨rfl, rfl, h⟩⟩ }
+
+/-- **store_iff_under_faults** (clause 4 for every behaviour of the store).  One call with a checkpoint
+    id, on any store state, for every fault plan (any `Get` / `Set` call may fail), every runner, input,
+    completion order: the interrupt is returned (the error carries the info / the result is
+    `interrupted`) exactly when the checkpoint was written, and then the store holds under the id
+    exactly the checkpoint of that interrupt; every other outcome — result, error of the run, failed
+    read, failed write — leaves what was stored untouched; and the call fails with the write error
+    exactly when the run reached an interrupt and that `Set` failed.  Needs the source fact. -/
+theorem store_iff_under_faults (ops : ValOps V) (r : IRunner V S X) (sched : ISched V S X) (plan : Plan) (x : V)
+    (st : Store V S X) :
+    let p := callF FactsC06.checkpointWriteErrorReturned plan (runI ops srcCfg r sched false true) x st
+    ((∃ info, Ev.interrupt info ∈ p.1.evs) ↔ p.1.interrupted) ∧
+    (Ev.storeSet ∈ p.1.evs ↔ p.1.interrupted) ∧
+    (p.1.interrupted ↔ ∃ cp info, p.1.res = .ran (.interrupted cp info) ∧ p.2.content = some cp) ∧
+    (¬ p.1.interrupted → p.2.content = st.content) ∧
+    (p.1.res = .writeFailed ↔
+      (plan.getFails st.gets = false ∧ plan.setFails st.sets = true ∧
+        ∃ cp info, (runI ops srcCfg r sched false true (inpOf x st)).res = .interrupted cp info)) := by
+  have hf : FactsC06.checkpointWriteErrorReturned = true := by decide
+  rw [hf]
+  exact callF_exact plan _ (runI_runOK ops srcCfg r sched) x st
+
+/-- **store_tracks_returned_interrupts** (the same over a whole history, all fault positions).  The
+    caller repeats the call with the same id (resume after an interrupt, retry after an error of the
+    store), any number of calls, any fault plan: every call of the history satisfies
+    `store_iff_under_faults` on the store the previous calls left, and what is stored under the id
+    after each call is a function of the results the caller saw — the checkpoint of the latest
+    interrupt that was returned (nothing before the first): an interrupt is never reported without its
+    checkpoint, a checkpoint never replaced without the interrupt being reported. -/
+theorem store_tracks_returned_interrupts (ops : ValOps V) (r : IRunner V S X) (sched : ISched V S X) (plan : Plan)
+    (x : V) (n : Nat) (st : Store V S X) :
+    let h := histF FactsC06.checkpointWriteErrorReturned plan (runI ops srcCfg r sched false true) x n st
+    (∀ p ∈ h, ∃ st0, p = callF true plan (runI ops srcCfg r sched false true) x st0 ∧
+      (p.1.interrupted ↔ Ev.storeSet ∈ p.1.evs) ∧
+      (p.1.interrupted ↔ ∃ cp info, p.1.res = .ran (.interrupted cp info) ∧ p.2.content = some cp)) ∧
+    h.map (fun p => p.2.content) = scanCP st.content (h.map (fun p => p.1)) := by
+  have hf : FactsC06.checkpointWriteErrorReturned = true := by decide
+  rw [hf]
+  refine ⟨fun p hp => ?_, histF_content plan _ x n st⟩
+  obtain ⟨st0, rfl⟩ := histF_mem true plan _ x n st p hp
+  have := callF_exact plan _ (runI_runOK ops srcCfg r sched) x st0
+  exact ⟨st0, rfl, this.2.1.symm, this.2.2.1⟩
+
+/-- the `Set` of the first interrupt fails, every other call of the store succeeds -/
+def firstSetFails : Plan := { getFails := fun _ => false, setFails := fun k => k == 0 }
+
+def fresShape : FRes Nat Unit Unit → String
+  | .ran (.done _) => "done" | .ran (.interrupted ..) => "interrupted" | .ran (.failed _) => "failed"
+  | .readFailed => "readFailed" | .writeFailed => "writeFailed"
+
+/-- non-vacuity on `lin` (start → a → b → end, interrupt-before {a, b}, interrupt-after {a}): the first
+    call reaches the interrupt before `a`, the write fails: a plain error, nothing stored; the retry
+    starts from START again, interrupts and is stored; then the history goes on as without faults -/
+example : (histF true firstSetFails (runI natOps fixedCfg lin ISched.id false true) 1 10 {}).map
+      (fun p => (fresShape p.1.res, p.2.content.isSome, topSteps p.1.evs)) =
+    [("writeFailed", false, []), ("interrupted", true, []), ("interrupted", true, [[("a", false)]]),
+     ("done", true, [[("b", false)]])] := by decide
+
+/-- **write_error_dropped_reports_unsaved_interrupt** (negation witness for the fact): were the error
+    of `checkPointer.set` not returned, the same call would report an interrupt (extractable info)
+    while nothing is stored under the id — and the "resume" would be a fresh run from START. -/
+theorem write_error_dropped_reports_unsaved_interrupt :
+    let p := callF false firstSetFails (runI natOps fixedCfg lin ISched.id false true) 1 {}
+    fresShape p.1.res = "interrupted" ∧ p.2.content.isSome = false ∧ p.1.evs.any Ev.isStoreSet = false ∧
+    ((histF false firstSetFails (runI natOps fixedCfg lin ISched.id false true) 1 10 {}).map
+      (fun p => (fresShape p.1.res, p.2.content.isSome, topSteps p.1.evs))).take 2 =
+    [("interrupted", false, []), ("interrupted", true, [])] := by decide
+
+end Fault
 
 end EinoV.C06
